@@ -171,6 +171,13 @@ pub fn main(args: &[String]) -> i32 {
     let thorough = args.iter().any(|a| a == "--thorough");
     let _ = arg_value(args, "--dummy");
     let mut out: BTreeMap<String, String> = BTreeMap::new();
+    if args.iter().any(|a| a == "--light") {
+        // the cheap transforms / vector utilities / trees around the thresholds only: run for every pool size 1..64
+        math_part::<f64::BaseElement>("f64", &mut out, &[1024, 2048, 2049, 4096, 8193]);
+        merkle_part::<Blake3_256<f64::BaseElement>>("blake3_256", &mut out, &[1024, 2048, 4096]);
+        println!("{}", json!({"concurrent": cfg!(feature = "concurrent"), "threads": std::env::var("RAYON_NUM_THREADS").unwrap_or_default(), "results": out}));
+        return 0;
+    }
     // lengths on both sides of the 1024-element threshold, and lengths that are not a multiple of the batch size once the
     // batches are large enough to be handed to the pool (1024 * next_pow2(threads) + 1: the last batch is a short one)
     let sizes: Vec<usize> = if thorough { vec![8, 512, 1023, 1024, 1025, 2048, 2049, 3000, 4096, 4097, 5000, 8192, 8193, 16385, 65537] } else { vec![512, 1023, 1024, 1025, 2048, 2049, 4096, 4097, 8193] };
